@@ -51,6 +51,13 @@ CORPUS = [
         "        idx_end = indices_grid_heights[..., 1:]\n        g_end = growth.gather(-1, idx_end)\n        start = grid0.gather(-1, idx_end)\n        log_n0 = log_pop_size_grid.gather(-1, idx_end)\n"
         "        integral = (\n            torch.exp(g_end * (grid_heights_sorted[..., 1:] - start)) - torch.exp(g_end * (grid_heights_sorted[..., :-1] - start))\n        ) / (torch.exp(log_n0) * g_end)\n",
         mode='text', benign=True, note='a repaired integral must satisfy the rule that reports the known finding'),
+    Mut('c08-linear-lookup-assumes-regular-grid', CO, '', "        indices_node_heights = torch.bucketize(node_heights_sorted, self.grid)\n", "        indices_node_heights = torch.div(node_heights_sorted, self.grid[0], rounding_mode='floor').long()\n",
+        expect=[('C08.L', 'PiecewiseLinearCoalescentGrid.log_prob::piece-index-of-')], mode='text'),
+    Mut('c08-benign-lookup-searchsorted', CO, '', "        indices_node_heights = torch.bucketize(node_heights_sorted, self.grid)\n", "        indices_node_heights = torch.searchsorted(self.grid, node_heights_sorted)\n", benign=True, mode='text'),
+    Mut('c08-times-built-in-default-precision', CO, '', "        times = torch.tensor(data['times'], dtype=dtype)\n", "        times = torch.tensor(data['times']).to(dtype)\n", expect=[('C08.T', 'process_data_coalesent')], mode='text'),
+    Mut('c08-intervals-summed-in-default-precision', CO, '', "        times = torch.tensor([0.0] + data['intervals'], dtype=dtype).cumsum(0)\n", "        times = torch.tensor([0.0] + data['intervals']).cumsum(0).to(dtype)\n", expect=[('C08.T', 'process_data_coalesent')], mode='text'),
+    Mut('c08-growth-stored-past-setattr', CO, '', "        super().__init__(id_, theta, tree_model)\n        self.growth = growth\n", "        super().__init__(id_, theta, tree_model)\n        self.__dict__['growth'] = growth\n", expect=[('C08.H', 'ExponentialCoalescentModel.__init__')], mode='text'),
+    Mut('c08-benign-temperature-stored-past-setattr', CO, '', "        self.grid = grid\n        self.temperature = temperature\n", "        self.grid = grid\n        self.__dict__['temperature'] = temperature\n", benign=True, mode='text'),
 ]
 for m in CORPUS:
     if m.id == 'c08-marks-not-permuted':
